@@ -83,9 +83,9 @@ def fit_minuit_v1(fcn, bounds_dict={}, hesse=True, minos=False, **kwargs):
         m.minos()  # (var="")
         print("MINOS Time", time.time() - now)
     ndf = len(m.list_of_vary_param())
-    ret = FitResult(
-        dict(m.values), fcn, m.fval, ndf=ndf, success=m.migrad_ok()
-    )
+    params = dict(m.values)
+    fcn.vm.set_all(params)  # make sure fit results same as variable
+    ret = FitResult(params, fcn, m.fval, ndf=ndf, success=m.migrad_ok())
     ret.set_error(dict(m.errors))
     return ret
 
@@ -140,9 +140,9 @@ def fit_minuit_v2(fcn, bounds_dict={}, hesse=True, minos=False, **kwargs):
         m.minos()  # (var="")
         print("MINOS Time", time.time() - now)
     ndf = len(var_names)
-    ret = FitResult(
-        dict(zip(var_names, m.values)), fcn, m.fval, ndf=ndf, success=m.valid
-    )
+    params = dict(zip(var_names, m.values))
+    fcn.vm.set_all(params)  # make sure fit results same as variable
+    ret = FitResult(params, fcn, m.fval, ndf=ndf, success=m.valid)
     # print(m.errors)
     ret.set_error(dict(zip(var_names, m.errors)))
     return ret
